@@ -350,6 +350,10 @@ def run_case(rec, seed, k, i, tier):
     if status == 0:
         rec.event('success_residual_checks')
         rec.margin('success_true_over_tol', true/(tol*refnorm))
+        # (the ratio to tol alone exceeds 1 where forming s - A e is itself
+        # limited by rounding: tol 1e-10 on badly scaled models; the verdict
+        # uses the bound including that floor)
+        rec.margin('success_true_over_bound', true/bound)
         if not (true <= bound):
             ssl = var.sslsolver if var is not None else kw['sslsolver']
             key = ('C01:success-above-tol-krylov' if ssl else
